@@ -37,6 +37,18 @@ Definition probe_swar (tags : list (option N)) (h2 : N) : list nat :=
   let markedw := N.land (markZeroBytes (N.lxor metaw (broadcast h2))) (Z.to_N metaMask) in
   marked_indices markedw 0 8.
 
+(* [probe_swar] is the Go code on the inputs the Go code is given: at most entriesPerMapOfBucket meta
+   bytes, each a 7-bit tag or the empty mark, and a 7-bit tag to search.  Outside that domain
+   (where util.go is never called) the machine's probe falls back to exact matching, so that the
+   probe is sound and complete on ALL inputs (proofs/X_swar.v) *)
+Definition probe_exact (tags : list (option N)) (h2 : N) : list nat :=
+  filter (fun i => match nth i tags None with Some t => N.eqb t h2 | None => false end) (seq 0 (length tags)).
+Definition probe_valid (tags : list (option N)) (h2 : N) : bool :=
+  Nat.leb (length tags) (Z.to_nat entriesPerMapOfBucket) && N.ltb h2 128
+  && forallb (fun o => match o with Some x => N.ltb x 128 | None => true end) tags.
+Definition probe_x (tags : list (option N)) (h2 : N) : list nat :=
+  if probe_valid tags h2 then probe_swar tags h2 else probe_exact tags h2.
+
 (* newMapOfTable: counterLen = clamp(len >> 10, 8, 32) *)
 Definition nstripes_x (len : nat) : nat :=
   let c := Nat.div len 1024 in
@@ -57,7 +69,7 @@ Definition x_machine_init (seeds : list N) (hint : Z) (todo : nat -> list xop_z)
 Definition x_machine_step (o : oracle) (seeds : list N) (hint : Z) (s : xstate_z) (t : nat)
   : option (xstate_z * list (@xlabel Z Z)) :=
   @xstep Z Z zeqd (hash_of o) idx_mapof tag_mapof (Z.to_nat entriesPerMapOfBucket) (seeds_of seeds)
-         grow_needed_m shrink_policy_m probe_swar nstripes_x (minlen_of_hint true hint) false s t.
+         grow_needed_m shrink_policy_m probe_x nstripes_x (minlen_of_hint true hint) false s t.
 
 (* the user-function family of the scheduler driver (harness/README.md) *)
 Inductive xfn := XFSet (v : Z) | XFIncr | XFDel | XFDelIf (v : Z) | XFNoopDelAbs.
